@@ -1,6 +1,7 @@
 package rewrite
 
 import (
+	"fmt"
 	"github.com/grafana/cog/internal/ast"
 	"github.com/grafana/cog/internal/veneers/builder"
 	"github.com/grafana/cog/internal/veneers/option"
@@ -60,7 +61,10 @@ func (engine *Rewriter) ApplyTo(schemas ast.Schemas, builders []ast.Builder, lan
 			return nil, err
 		}
 
-		newBuilders = engine.applyOptionRules(schemas, newBuilders, engine.optionRules[l])
+		newBuilders, err = engine.applyOptionRules(schemas, newBuilders, engine.optionRules[l])
+		if err != nil {
+			return nil, err
+		}
 	}
 
 	// and optionally, apply "debug" veneers
@@ -70,7 +74,10 @@ func (engine *Rewriter) ApplyTo(schemas ast.Schemas, builders []ast.Builder, lan
 			return nil, err
 		}
 
-		newBuilders = engine.applyOptionRules(schemas, newBuilders, engine.debugOptionRules())
+		newBuilders, err = engine.applyOptionRules(schemas, newBuilders, engine.debugOptionRules())
+		if err != nil {
+			return nil, err
+		}
 	}
 
 	return newBuilders, nil
@@ -89,7 +96,7 @@ func (engine *Rewriter) applyBuilderRules(schemas ast.Schemas, builders []ast.Bu
 	return builders, nil
 }
 
-func (engine *Rewriter) applyOptionRules(schemas ast.Schemas, builders []ast.Builder, rules []option.RewriteRule) []ast.Builder {
+func (engine *Rewriter) applyOptionRules(schemas ast.Schemas, builders []ast.Builder, rules []option.RewriteRule) ([]ast.Builder, error) {
 	// the builder of a struct whose fields are all fixed has no option to begin with
 	hadOptions := make([]bool, len(builders))
 	for i, b := range builders {
@@ -106,7 +113,14 @@ func (engine *Rewriter) applyOptionRules(schemas ast.Schemas, builders []ast.Bui
 					continue
 				}
 
-				processedOptions = append(processedOptions, rule.Action(schemas, b, opt)...)
+				rewritten := rule.Action(schemas, b, opt)
+
+				// the factories of the builder call its options by name
+				if err := engine.factoriesFollowOption(&builders[i], opt, rewritten); err != nil {
+					return nil, err
+				}
+
+				processedOptions = append(processedOptions, rewritten...)
 			}
 
 			builders[i].Options = processedOptions
@@ -123,7 +137,52 @@ func (engine *Rewriter) applyOptionRules(schemas ast.Schemas, builders []ast.Bui
 		remaining = append(remaining, b)
 	}
 
-	return remaining
+	return remaining, nil
+}
+
+// factoriesFollowOption keeps the factories of a builder in line with what a
+// rule made of one of its options: a renamed option is called by its new name,
+// an option that is gone can not be called any more.
+func (engine *Rewriter) factoriesFollowOption(builder *ast.Builder, original ast.Option, rewritten []ast.Option) error {
+	for _, opt := range rewritten {
+		if opt.Name == original.Name {
+			return nil
+		}
+	}
+
+	calls := false
+	for _, factory := range builder.Factories {
+		for _, call := range factory.OptionCalls {
+			if call.Name != original.Name {
+				continue
+			}
+
+			if len(rewritten) != 1 || len(rewritten[0].Args) != len(original.Args) {
+				return fmt.Errorf("[%s.%s] the factory '%s' calls the option '%s', which a veneer removes or replaces", builder.Package, builder.Name, factory.Name, original.Name)
+			}
+
+			calls = true
+		}
+	}
+	if !calls || len(rewritten) != 1 {
+		return nil
+	}
+
+	// the factories can be shared with the builder this one was copied from: they are replaced, not changed
+	factories := make([]ast.BuilderFactory, 0, len(builder.Factories))
+	for _, factory := range builder.Factories {
+		renamed := factory.DeepCopy()
+		for c, call := range renamed.OptionCalls {
+			if call.Name == original.Name {
+				renamed.OptionCalls[c].Name = rewritten[0].Name
+			}
+		}
+
+		factories = append(factories, renamed)
+	}
+	builder.Factories = factories
+
+	return nil
 }
 
 func (engine *Rewriter) debugBuilderRules() []builder.RewriteRule {
